@@ -470,8 +470,9 @@ func (r *Runtime) stringproto_normalize(call FunctionCall) Value {
 	case asciiString:
 		return s
 	case unicodeString:
-		ss := s.String()
-		return newStringValue(f.String(ss))
+		return s.mapSegments(func(ss string) String {
+			return newStringValue(f.String(ss))
+		})
 	case *importedString:
 		if s.scanned && s.u == nil {
 			return asciiString(s.s)
